@@ -202,6 +202,10 @@ example : windows ("abcd\nwxyz".toList.map (fun c => [c])) 0 8 = some [(0, 4), (
 example : windows ("abcd\nwxyz\n".toList.map (fun c => [c])) 0 8 = some [(0, 4), (5, 9)] := by decide
 /-- a corner on a terminator keeps its column (before fix 673f6a4 this was `[(0, 0)]`) -/
 example : windows ("q\n42\n".toList.map (fun c => [c])) 0 1 = some [(0, 1)] := by decide
+example : windowsOldCorner ("q\n42\n".toList.map (fun c => [c])) 0 1 = some [(0, 0)] := by decide
+/-- a block between two empty lines keeps the text between them (before the fix the middle row was empty) -/
+example : windows ("\nx y\n\n".toList.map (fun c => [c])) 0 5 = some [(0, 0), (1, 2), (5, 5)] := by decide
+example : windowsOldCorner ("\nx y\n\n".toList.map (fun c => [c])) 0 5 = some [(0, 0), (1, 1), (5, 5)] := by decide
 /-- short lines in between give short or empty rows -/
 example : windows ("abc\n\nxyz\n".toList.map (fun c => [c])) 1 7 = some [(1, 3), (4, 4), (6, 8)] := by decide
 
